@@ -81,6 +81,30 @@ Theorem C03_in_bounds : forall b id payload scratch t i,
 Proof. exact C03_in_bounds_thm. Qed.
 Print Assumptions C03_in_bounds.
 
+(* Countdown-timer maintenance.  A message whose handler arms a countdown (relay path of set-value, relay-function
+   channel config) also evaluates every running slot (supla_esp_countdown_timer_cb).  Beyond C03_frame, such a message
+   may therefore touch, for a channel y whose slot an EARLIER message armed (C03_armed_named: only a dispatched message
+   naming y arms y's slot), exactly y's remaining time, y's relay pin(s) and y's saved relay state, all inside the tables;
+   messages that arm nothing (shutter path, calcfg, config of shutters, mis-sized, unknown) add nothing. *)
+Theorem C03_timer_maintenance : forall b armed id payload scratch cl,
+  wf_board b -> In cl (timer_mw b armed id payload scratch) ->
+  evaluates_timers b id payload = true /\
+  exists y, In y armed /\ owns b y cl /\ timer_table (fst cl) = true /\ 0 <= snd cl < tsize (fst cl).
+Proof. exact C03_timer_maintenance_thm. Qed.
+Print Assumptions C03_timer_maintenance.
+
+Theorem C03_armed_named : forall b armed id payload scratch y,
+  In y (armed_after b armed id payload scratch) -> In y armed \/ named_channel id payload = Some y.
+Proof. exact C03_armed_named_thm. Qed.
+Print Assumptions C03_armed_named.
+
+(* all indices of the complete write set (own effects ++ timer maintenance) are inside their tables *)
+Theorem C03_in_bounds_all : forall b armed id payload scratch t i,
+  wf_board b -> bytes_ok payload ->
+  In (t, i) (may_write_t CURRENT_FIXED b armed id payload scratch) -> 0 <= i < tsize t.
+Proof. exact C03_in_bounds_t_thm. Qed.
+Print Assumptions C03_in_bounds_all.
+
 (* the code before docs/fixes/C03_rs_config_guards.diff violates both clauses *)
 Theorem C03_old_code_refuted :
   (wf_board board_4rs /\ bytes_ok (rs_config_msg 3 FNC_RS 2) /\
